@@ -261,6 +261,8 @@ func c12pkg() *tcpsim.C12Pkg {
 	}
 }
 
+func init() { tcpsim.PageBytes = reassembly.VerifPageBytes }
+
 var sims = map[string]sim.SimFunc{
 	"c12r": func(c *sim.Ctx) { tcpsim.RunC12(c, c12pkg()) },
 	"c09": func(c *sim.Ctx) {
